@@ -237,7 +237,16 @@ def replay(args):
             os.makedirs(res, exist_ok=True)
             files, totals, extra, filesb, totalsb = read_files(res, ntasks, I, pos)
             an_a, an_b = read_analysis(res, I, pos)
-            ev['obs'] = {'raised': raised, 'files': files, 'totals': totals, 'before': before,
+            prog = []
+            for t_ in range(ntasks):
+                pf = os.path.join(d, 'logs', 'progress', f'progress_{str(t_ + 1).zfill(digits)}.txt')
+                try:
+                    with open(pf) as f:
+                        k_, n_ = f.read().split('/')
+                    prog.append([int(k_), int(n_)])
+                except Exception:
+                    prog.append([-1, -1])
+            ev['obs'] = {'raised': raised, 'files': files, 'totals': totals, 'before': before, 'progress': prog,
                          'filesb': filesb, 'totalsb': totalsb, 'beforeb': beforeb,
                          'analysis': an_a, 'analysisb': an_b, 'extra_files': extra}
             steps.append(ev)
